@@ -34,7 +34,9 @@ QUICK_PATTERNS = [['first', 'next', 'next', 'prev'], ['last', 'prev', 'next', 'n
                   ['last', 'prev', 'seek', 'prev'], ['first', 'next', 'seek', 'next'], ['seek', 'prev', 'prev', 'next'], ['seek', 'next', 'prev', 'next'],
                   ['last', 'seek', 'prev', 'prev'], ['first', 'seek', 'prev', 'next'], ['seek', 'prev', 'seek', 'next'], ['last', 'next'], ['first', 'prev'],
                   # absolute repositioning after the cursor has moved
-                  ['first', 'next', 'first', 'next'], ['seek', 'first', 'next'], ['last', 'prev', 'last', 'prev'], ['seek', 'last', 'prev']]
+                  ['first', 'next', 'first', 'next'], ['seek', 'first', 'next'], ['last', 'prev', 'last', 'prev'], ['seek', 'last', 'prev'],
+                  # absolute repositioning while the cursor is parked in the opposite direction
+                  ['last', 'prev', 'first', 'next'], ['first', 'next', 'last', 'prev']]
 
 
 def o4_1_merging(mir, tier):
